@@ -604,6 +604,25 @@ def cost_slack(bound, op, args, n, m):
     return 2 * bound + 4 * handled
 
 
+def scale_verdict(rec):
+    """C05 at scale (`pqharness scale`, no trace and no model: one JSON record per probe with the number of Ord::cmp calls of
+    ONE operation on an adversarially arranged queue of 2^12 … 2^20 elements).  Same bounds, same threshold as j_cost."""
+    kind, op, n, m, handled, dt = rec["kind"], rec["op"], rec["n"], rec["m"], max(1, rec["handled"]), rec["dt"]
+    if op == "extend":
+        lg = log2(m)
+        bound = max((2 if kind == "pq" else 7) * m, handled * (3 * lg if kind == "pq" else 8 * lg + 8))
+    else:
+        bound = cost_bound(kind, op, [], n, m)
+    if bound is None:
+        return None, None, None
+    slack = 2 * bound + 4 * handled
+    msg = None
+    if dt > slack:
+        msg = "%s (%s, arrangement %s) on %d elements performed %d comparisons; the bound proved for the model is %d (alarm threshold %d)" % (
+            op, kind, rec["pattern"], n, dt, bound, slack)
+    return msg, bound, slack
+
+
 def j_cost(kind, pre, ln):
     """C05: comparison counts against the bounds PROVED for the model in PQ/Props/C05.lean (see cost_bound)."""
     if ln.fault or ln.snap is None or ln.snap.dt is None or pre is None:
